@@ -7,7 +7,8 @@ RULE = ("marker workspaces (1-3 files; built-in, custom and aggregate rules with
         "a directive is placed on the line above / end of same line / two lines above / line below, spelled as the exact name, "
         "a comma list with spaces, another rule's name, a prefix of the name; expected report = base minus the violations named "
         "on the directive's row or the next row, other rows shifted by one when a line was inserted. distinct = (workspace, "
-        "violation, placement, spelling); non-trivial = the directive is expected to suppress at least one violation")
+        "violation, placement, spelling); non-trivial = the directive is expected to suppress at least one violation"
+        ' Also: comment texts (exhaustive small token alphabet up to 4-5 tokens, NBSP/VT/FF, random, well-formed comma lists with white space) through the real parser + ast.ignore_directives vs Directive.names.')
 TRUSTED = ["Env boundary: OPA's comment locations and the rule packages; the parser keeps a rule's row when a comment line is inserted elsewhere"]
 ASSUMPTIONS = ["two-phase pipelines are excluded here (finding C09-directives)"]
 
